@@ -26,6 +26,8 @@ def run_property(prop, tier, seed, replay_file=None):
     plan = PLAN[prop]
     os.makedirs(E.OUT, exist_ok=True)
     build_s = E.build_harness()
+    if plan.get("needs_off"):
+        build_s += E.build_harness(off=True)
     E.log("harness built in %.1fs; model switches on: %s" % (build_s, ",".join(fixes) or "-"))
 
     insts = plan[tier] if tier in plan else plan["quick"]
